@@ -27,7 +27,7 @@ THEOREMS = ['C20.order_sound', 'C20.owner_first', 'C20.misc_last', 'C20.cycle_re
             'C20.fuel_enough', 'C20.duplicate_rejected', 'C20.history_inv', 'C20.load_failure_preserves',
             'C20.owner_stays', 'C20.reload_failure_preserves', 'C20.reload_failure_partial',
             'C20.reload_ctor_counter', 'C20.self_reference_rejected', 'C20.commands_union',
-            'C20.shared_view', 'C20.shared_history']
+            'C20.shared_view', 'C20.shared_history', 'C20.startup_inv', 'C20.unloaded_stays_out', 'C20.flag_tracks']
 TRUSTED = ['Lean 4.33.0 kernel; axioms ⊆ {propext, Classical.choice, Quot.sound}',
            'harness/c20.py generators, reply canonicalisation, synthetic plugins harness/plugins/VtOrd0..5',
            'plugin names are ASCII (str.lower modelled on the ASCII range)',
@@ -67,7 +67,7 @@ def get_bot():
 
 def reset_cfg(c):
     c.before = {}; c.after = {}; c.init_raises = set(); c.die_raises = set(); c.import_fails = set()
-    c.import_other = set(); c.log = []; c.seen = []; c.version = {}; c.serial = 0
+    c.import_other = set(); c.log = []; c.seen = []; c.version = {}; c.serial = 0; c.deprecated = set()
 
 def say(b, text, which=0):
     """send a command of the owner on the given network, return the texts of the replies"""
@@ -91,6 +91,7 @@ def canon_reply(rs):
     if r.startswith('The operation succeeded'): return 'success'
     if 'An error has occurred' in r: return 'exception'
     if 'is already loaded' in r: return 'error:already loaded'
+    if 'is deprecated' in r: return 'error:deprecated'
     if "You can't unload" in r: return "error:can't unload Owner"
     if "You can't reload" in r: return "error:can't reload Owner"
     if r.startswith('Error:'): return 'error:no plugin'
@@ -106,6 +107,15 @@ def hard_reset(b, c):
                     cb.die()
                 except Exception:
                     pass
+    for n in VT:
+        try:
+            b.conf.supybot.plugins.unregister(n)
+        except Exception:
+            pass
+    for n in BASE:
+        b.conf.supybot.plugins.get(n).setValue(False)
+    b.conf.supybot.commands.defaultPlugins.importantPlugins.setValue(set(BASE))
+    b.conf.supybot.plugins.alwaysLoadImportant.setValue(True)
     for irc in b.ircs:
         if irc.callbacks is not b.irc.callbacks:
             irc.callbacks = b.irc.callbacks      # a previous trial may have left the networks with different lists
@@ -179,14 +189,28 @@ def gen_ops(r, n):
         elif y < 0.13: fault = 'other'
         elif y < 0.21: fault = 'ctor'
         elif y < 0.27: fault = 'die'
-        if x < 0.5: kind = 'load'
-        elif x < 0.72: kind = 'unload'
-        else: kind = 'reload'
+        if x < 0.45: kind = 'load'
+        elif x < 0.65: kind = 'unload'
+        elif x < 0.9: kind = 'reload'
+        else: kind = 'startup'
         ops.append({'op': kind, 'name': case_variant(r, tgt) if tgt in VT or r.random() < 0.5 else tgt, 'fault': fault,
                     'irc': 1 if r.random() < 0.3 else 0,          # the network the command arrives on
-                    'bump': r.random() < 0.6})                     # the plugin's module "on disk" changes first
+                    'bump': r.random() < 0.6,                      # the plugin's module "on disk" changes first
+                    'dep': r.random() < 0.4,                       # load --deprecated
+                    'sfaults': {v: r.choice(FAULTS[:3]) for v in VT if r.random() < 0.12} if kind == 'startup' else {}})
 
     return ops
+
+def flags_of(b):
+    """supybot.plugins.<Name> for the plugins of the trial, in the order the start-up loader sees them"""
+    return [(n, bool(v())) for (n, v) in b.conf.supybot.plugins.getValues(fullNames=False) if n in VT or n in BASE]
+
+def enc_flags(fl):
+    return '-' if not fl else ','.join('%s:%d' % (wire.enc(n), 1 if v else 0) for n, v in fl)
+
+FAULTS = ('import', 'other', 'ctor', 'die')
+def fault_bits(fault, deprecated=False, ignore=False):
+    return ''.join('1' if fault == x else '0' for x in FAULTS) + ('1' if deprecated else '0') + ('1' if ignore else '0')
 
 def real_name(n):
     n = n[:-3] if n.endswith('.py') else n
@@ -237,26 +261,50 @@ def run_trial(b, c, trial):
     hard_reset(b, c)
     c.before = {k: list(v) for k, v in trial['before'].items()}
     c.after = {k: list(v) for k, v in trial['after'].items()}
+    c.deprecated = set(trial.get('deprecated', ()))
+    important = list(trial.get('important', BASE)); always = trial.get('always', True)
+    b.conf.supybot.commands.defaultPlugins.importantPlugins.setValue(set(important))
+    b.conf.supybot.plugins.alwaysLoadImportant.setValue(bool(always))
     impl = []; lines = []; problems = []; findings = set(); tags = set(['graph:' + trial['class']])
     probed = [None]
-    lines.append('reset\t' + ','.join(describe_plugin(c, n) for n in names(b)))
+    lines.append('reset\t%s\t%s' % (','.join(describe_plugin(c, n) for n in names(b)), enc_flags(flags_of(b))))
     impl.append('ok')
     for si, op in enumerate(trial['ops']):
         before_names = names(b)
+        before_flags = dict(flags_of(b))
         kind, nm, fault = op['op'], op['name'], op['fault']
         rn = real_name(nm)
         if rn not in VT:
             fault = ''            # the failure knobs exist only in the synthetic plugins
-        c.import_fails = set([rn]) if fault == 'import' and rn else set()
-        c.import_other = set([rn]) if fault == 'other' and rn else set()
-        c.init_raises = set([rn]) if fault == 'ctor' and rn else set()
-        c.die_raises = set([rn]) if fault == 'die' and rn else set()
         which = op.get('irc', 0)
-        if op.get('bump') and rn in VT and kind in ('load', 'reload'):
-            # the module "on disk" changes between two (re)loads: other command set, told apart by alt<i>
-            c.version[rn] = c.version.get(rn, 0) + 1
-            tags.add('version-bump')
-        reply = canon_reply(say(b, '%s %s' % (kind, nm), which))
+        dep = bool(op.get('dep')) and kind == 'load'
+        if kind == 'startup':
+            # Owner._loadPlugins(irc), as run when a network is connected; failures injected per plugin
+            sf = {k: v for k, v in op.get('sfaults', {}).items()}
+            c.import_fails = set(k for k, v in sf.items() if v == 'import')
+            c.import_other = set(k for k, v in sf.items() if v == 'other')
+            c.init_raises = set(k for k, v in sf.items() if v == 'ctor')
+            try:
+                b.irc.getCallback('Owner')._loadPlugins(b.ircs[which])
+                reply = 'success'
+            except Exception as e:
+                reply = 'raised:' + type(e).__name__
+                problems.append('step %d: the start-up loader raised %s: %s' % (si, type(e).__name__, e))
+            for irc in b.ircs:
+                while irc.takeMsg() is not None:
+                    pass
+            nm = 'startup'; rn = None
+            tags.update('sfault:' + v for v in sf.values())
+        else:
+            c.import_fails = set([rn]) if fault == 'import' and rn else set()
+            c.import_other = set([rn]) if fault == 'other' and rn else set()
+            c.init_raises = set([rn]) if fault == 'ctor' and rn else set()
+            c.die_raises = set([rn]) if fault == 'die' and rn else set()
+            if op.get('bump') and rn in VT and kind in ('load', 'reload'):
+                # the module "on disk" changes between two (re)loads: other command set, told apart by alt<i>
+                c.version[rn] = c.version.get(rn, 0) + 1
+                tags.add('version-bump')
+            reply = canon_reply(say(b, '%s %s%s' % (kind, '--deprecated ' if dep else '', nm), which))
         c.import_fails = set(); c.import_other = set(); c.init_raises = set(); c.die_raises = set()
         after_names = names(b, 0)
         other_names = names(b, 1)
@@ -292,17 +340,38 @@ def run_trial(b, c, trial):
             want_seen = [n for n in after_names if n in VT]
             if seen != want_seen:
                 problems.append('step %d: on network %d the plugins saw the message in order %r, irc.callbacks says %r' % (si, net, seen, want_seen))
-        impl.append('%s\t%s\t%s\t%s' % (reply, wire.enc_list(after_names), wire.enc_list(other_names), wire.enc_list(sorted(answered))))
+        after_flags = flags_of(b)
+        impl.append('%s\t%s\t%s\t%s\t%s' % (reply, wire.enc_list(after_names), wire.enc_list(other_names),
+                                          wire.enc_list(sorted(answered)), enc_flags(after_flags)))
         probed.append(probed_cmds)
         # model line
-        fbits = ''.join('1' if fault == x else '0' for x in ('import', 'other', 'ctor', 'die'))
+        isdep = rn in c.deprecated if rn else False
+        fbits = fault_bits(fault, isdep, dep)
         avail = '~'
         if rn is not None and (rn in VT or rn in BASE):
             avail = describe_plugin(c, rn)
         if kind == 'unload':
             lines.append('unload\t%d\t%s\t%s' % (which, wire.enc(nm), fbits))
+        elif kind == 'startup':
+            disk = ','.join(describe_plugin(c, n) for n in list(BASE) + VT)
+            fm = ','.join('%s:%s' % (wire.enc(v), fault_bits(sf.get(v, ''), v in c.deprecated, False)) for v in VT)
+            lines.append('startup\t%d\t%s\t%s\t%s\t%s\t%s' % (which, disk, fm, wire.enc_list(important), '1' if always else '0',
+                                                                wire.enc_list(after_names)))
+            # what the start-up loader may add: flagged (or important while alwaysLoadImportant) plugins only
+            for n in after_names:
+                if n not in before_names and not (before_flags.get(n) or (n in important and always)):
+                    problems.append('step %d: the start-up loader registered %s although supybot.plugins.%s is off' % (si, n, n))
+            for n in before_names:
+                if n not in after_names:
+                    problems.append('step %d: the start-up loader dropped %s' % (si, n))
         else:
             lines.append('%s\t%d\t%s\t%s\t%s\t%s' % (kind, which, wire.enc(nm), avail, fbits, wire.enc_list(after_names)))
+        if isdep:
+            tags.add('deprecated' + ('+flag' if dep else ''))
+        if kind == 'load' and reply == 'success' and rn and dict(after_flags).get(rn) is not True:
+            problems.append('step %d: load %s succeeded but supybot.plugins.%s is %r' % (si, nm, rn, dict(after_flags).get(rn)))
+        if kind == 'unload' and reply == 'success' and rn and dict(after_flags).get(rn) is not False:
+            problems.append('step %d: unload %s succeeded but supybot.plugins.%s is %r' % (si, nm, rn, dict(after_flags).get(rn)))
         tags.update(['op:' + kind, 'reply:' + reply.split(':')[0]] + (['fault:' + fault] if fault else []))
         # ---- property oracle on the implementation ----
         low = [n.lower() for n in after_names]
@@ -345,7 +414,11 @@ def classify(problems, findings):
 
 def gen_trial(r, maxops):
     before, after, cls = gen_graph(r)
-    return {'before': before, 'after': after, 'class': cls, 'ops': gen_ops(r, r.randint(3, maxops))}
+    t = {'before': before, 'after': after, 'class': cls, 'ops': gen_ops(r, r.randint(3, maxops))}
+    t['deprecated'] = sorted(v for v in VT if r.random() < 0.15)
+    t['important'] = sorted(BASE) + ([r.choice(VT)] if r.random() < 0.3 else [])
+    t['always'] = r.random() < 0.7
+    return t
 
 WITNESS_RELOAD = {'before': {}, 'after': {}, 'class': 'witness',
                   'ops': [{'op': 'load', 'name': 'VtOrd2', 'fault': ''}, {'op': 'reload', 'name': 'VtOrd2', 'fault': 'ctor'}]}
@@ -447,7 +520,7 @@ def fill_model(cases, all_lines, spans):
         got = []
         for o, pr in zip(outs[a:a + n], probed):
             f = o.split('\t')
-            if len(f) == 4 and pr is not None:
+            if len(f) == 5 and pr is not None:
                 # the model lists the commands of all registered plugins; keep the probed ones, sorted
                 f[3] = wire.enc_list(sorted(x for x in wire.dec_list(f[3]) if x in pr))
             got.append('\t'.join(f))
@@ -467,7 +540,7 @@ def finding_status(ctx):
 
 def run(ctx):
     build = leanbuild.ensure(PROPERTY, THEOREMS, thorough=ctx.thorough, extractors=[])
-    n = 18000 if ctx.thorough else 1800
+    n = 12000 if ctx.thorough else 900
     cases, lines, spans = explore(ctx, n, corpus=[WITNESS_RELOAD, WITNESS_SELF] + load_corpus())
     if build.driver_ok:
         fill_model(cases, lines, spans)
@@ -499,6 +572,6 @@ def replay(ctx, path):
     print('implementation now:')
     for l in impl[1:]:
         f = l.split('\t')
-        print('  ', f[0], wire.dec_list(f[1]), wire.dec_list(f[2]), wire.dec_list(f[3]))
+        print('  ', f[0], wire.dec_list(f[1]), wire.dec_list(f[2]), wire.dec_list(f[3]), f[4] if len(f) > 4 else '')
     print('oracle:', problems or 'ok')
     return 1 if problems else 0
